@@ -563,6 +563,10 @@ def run(prog, rep, tier):
     rep.rule('SITE-index-offset', 'in functions with an `i_offset`, every site lookup includes it')
     if check_site_index_offset(prog, rep, ['tenpy/networks/mps.py']) < 2:
         raise AnalysisError('SITE-index-offset: site lookups of _term_to_ops_list not found')
+    from ..flow import check_stale_loop_reads
+    rep.rule('LOOP-stale-read', 'no per-item variable is read in a loop before the iteration assigns '
+             'it when its only other bindings are inside other loops')
+    check_stale_loop_reads(prog, rep, ['tenpy/networks/mps.py'])
     return rep.finish(
         level='other',
         explanation='Coupled-update order of the per-site lists (%d transformation functions), '
